@@ -6,7 +6,6 @@ use crate::rng::Rng;
 use routee_compass::app::compass::config::frontier_model::{
     combined::combined_service::CombinedFrontierService,
     road_class::{road_class_parser::RoadClassParser, road_class_service::RoadClassFrontierService},
-    turn_restrictions::turn_restriction_service::{RestrictedEdgePair, TurnRestrictionFrontierService},
     vehicle_restrictions::{
         vehicle_restriction::VehicleRestriction, vehicle_restriction_row::RestrictionRow,
         vehicle_restriction_service::VehicleRestrictionFrontierService,
@@ -38,7 +37,7 @@ use routee_compass_core::model::traversal::default::{
 use routee_compass_core::model::traversal::traversal_model::TraversalModel;
 use routee_compass_core::model::unit::{Cost, Distance, DistanceUnit, Speed, SpeedUnit, Time, TimeUnit};
 use serde_json::{json, Value};
-use std::collections::{HashMap, HashSet};
+use std::collections::HashMap;
 use std::sync::Arc;
 use std::time::Duration;
 
@@ -270,11 +269,26 @@ impl World {
                 Arc::new(VehicleRestrictionFrontierService { vehicle_restriction_lookup: Arc::new(lookup) })
             }
             FrontierCfg::Turn { pairs } => {
-                let set: HashSet<RestrictedEdgePair> = pairs
-                    .iter()
-                    .map(|(a, b)| RestrictedEdgePair { prev_edge_id: EdgeId(*a), next_edge_id: EdgeId(*b) })
-                    .collect();
-                Arc::new(TurnRestrictionFrontierService { restricted_edge_pairs: Arc::new(set) })
+                // through the real builder (a small csv file), so that the monitor does not depend on how the service
+                // keeps the pairs
+                use routee_compass::app::compass::config::frontier_model::turn_restrictions::turn_restriction_builder::TurnRestrictionBuilder;
+                use routee_compass_core::model::frontier::frontier_model_builder::FrontierModelBuilder;
+                use std::sync::atomic::{AtomicU64, Ordering};
+                static N: AtomicU64 = AtomicU64::new(0);
+                let dir = std::path::PathBuf::from(crate::root()).join(".work");
+                let _ = std::fs::create_dir_all(&dir);
+                let path = dir.join(format!("turns-{}-{}.csv", std::process::id(), N.fetch_add(1, Ordering::Relaxed)));
+                let mut body = String::from("prev_edge_id,next_edge_id\n");
+                for (a, b) in pairs {
+                    body.push_str(&format!("{a},{b}\n"));
+                }
+                let _ = std::fs::write(&path, body);
+                let built = TurnRestrictionBuilder {}.build(&json!({"turn_restriction_input_file": path.to_string_lossy()}));
+                let _ = std::fs::remove_file(&path);
+                match built {
+                    Ok(s) => s,
+                    Err(e) => panic!("turn restriction builder refused the generator's file: {e}"),
+                }
             }
             FrontierCfg::Combined(v) => Arc::new(CombinedFrontierService {
                 inner_services: v.iter().map(Self::frontier_service).collect(),
